@@ -42,12 +42,22 @@ def enumerate_faults(world, opts, facts):
             for i, r in enumerate(t["rows"]):
                 # unknown asset / exchange / holder
                 out.append(_cellfault("unknown_name", "unknown_asset", name, tt, i, "asset", "NOPE"))
+                # ... and names that are configured, but in another category (a holder cell naming an exchange, an exchange cell naming a
+                # holder or an asset): still unknown where they stand
                 for f in ("exchange", "from_exchange", "to_exchange"):
                     if f in r:
                         out.append(_cellfault("unknown_name", "unknown_exchange", name, tt, i, f, "Nowhere"))
+                        for cat, pool in (("holder", world["holders"]), ("asset", world["assets"])):
+                            cross = [x for x in pool if x not in world["exchanges"]]
+                            if cross:
+                                out.append(_cellfault("unknown_name", "unknown_exchange_is_" + cat, name, tt, i, f, cross[(i + len(f)) % len(cross)]))
                 for f in ("holder", "from_holder", "to_holder"):
                     if f in r:
                         out.append(_cellfault("unknown_name", "unknown_holder", name, tt, i, f, "Nobody"))
+                        for cat, pool in (("exchange", world["exchanges"]), ("asset", world["assets"])):
+                            cross = [x for x in pool if x not in world["holders"]]
+                            if cross:
+                                out.append(_cellfault("unknown_name", "unknown_holder_is_" + cat, name, tt, i, f, cross[(i + len(f)) % len(cross)]))
                 # timestamp without time zone
                 out.append(_cellfault("no_timezone", "no_timezone", name, tt, i, "timestamp", "STRIP_TZ"))
                 # the same naive timestamp in the other spellings a spreadsheet export produces
